@@ -216,12 +216,6 @@ Qed.
 
 (* ---------------- every rule: a run that ends normally leaves nobody hopeful *)
 Notation triple := (triple est (@crashed A)).
-Lemma t_do_nc (P : est -> Prop) f (Qn Qb Qc : est -> Prop) :
-  (forall s, P s -> crashed (f s) = false -> Qn (f s)) -> triple P (Do f) Qn Qb Qc.
-Proof.
-  intros H fuel s s' k HP He. cbn in He. inversion He; subst. destruct (crashed (f s)) eqn:C; [exact I|apply H; assumption].
-Qed.
-
 Ltac skip_prefix := repeat (eapply t_seq; [apply t_any|]).
 
 Lemma wigm_decided : triple TT (wigm A cfg) NoHop TT TT.
@@ -239,9 +233,9 @@ Proof.
   - apply t_skip'. intros s [_ Hg]. unfold NoHop. destruct (hopefuls A s); [reflexivity|discriminate Hg].
 Qed.
 Lemma meek_decided : triple TT (meek A cfg) NoHop TT TT.
-Proof. unfold meek. skip_prefix. apply t_do_nc. intros s _ Hc. apply meek_final_nohop; exact Hc. Qed.
+Proof. unfold meek. skip_prefix. apply (t_do_nc est (@crashed A)). intros s _ Hc. apply meek_final_nohop; exact Hc. Qed.
 Lemma meek_prf_decided : triple TT (meek_prf A cfg) NoHop TT TT.
-Proof. unfold meek_prf. skip_prefix. apply t_do_nc. intros s _ Hc. apply meek_final_nohop; exact Hc. Qed.
+Proof. unfold meek_prf. skip_prefix. apply (t_do_nc est (@crashed A)). intros s _ Hc. apply meek_final_nohop; exact Hc. Qed.
 
 (* cfer: the count leaves its loop only through a Break, each preceded by a settling micro-operation *)
 Lemma cfer_decided : triple TT (cfer A cfg) NoHop TT TT.
